@@ -236,3 +236,10 @@ def run(ctx):
         ctx.holds("N4", "require command built from the full requires list")
     else:
         ctx.violation("N4", R.gen_require or w, "require-list", "the require command is not built from the full requires list", node=(R.gen_require or w).node)
+    # the saved script must be one the parser accepts (else nothing can be loaded from it): the factory's rendering rules (F1-F6 of
+    # C06) and the decoding of string tokens (P15 of C01) are part of this property's mechanism
+    from .c06 import factory_rules
+    factory_rules(ctx, R, PR)
+    from .c01 import p15
+    p15(ctx, PR)
+
